@@ -2,6 +2,590 @@
 
 package mdm
 
-import "go.sia.tech/hostd/v2/internal/verifh/vhlib"
+// Generator of hostile cases.  Everything derives from the seed.  A case is a
+// protocol line whose op half carries every input (operands, program data
+// words/blobs, payment and finalisation mode) and the facts about host state
+// the model's guards consult (`present`, `algOk`, `found`, `putOk`) — the
+// generator knows them because it lays out the program data itself.
 
-func generate(cfg vhlib.Config) []string { return nil }
+import (
+	"fmt"
+	"math"
+	"strings"
+
+	"go.sia.tech/hostd/v2/internal/verifh/vhlib"
+)
+
+const (
+	u64max = math.MaxUint64
+	oneSC  = "1000000000000000000000000"
+)
+
+type gen struct {
+	r   *vhlib.Rand
+	seq uint64
+	out []string
+}
+
+func (g *gen) emit(format string, a ...any) { g.out = append(g.out, fmt.Sprintf(format, a...)) }
+
+func (g *gen) pick(xs ...uint64) uint64 { return xs[g.r.Intn(len(xs))] }
+
+// near returns a value at or around x (wrapping like the wire values do).
+func (g *gen) near(x uint64) uint64 {
+	return x + g.pick(0, 0, 1, 2, 7, 8, 9, u64max, u64max-1, u64max-7, u64max-8) // +0,+1,…,-1,-2,-8,-9
+}
+
+// huge returns an operand from the top of the uint64 range or a power of two.
+func (g *gen) huge() uint64 {
+	return g.pick(1<<31, 1<<32, 1<<62, 1<<63-1, 1<<63, 1<<63+1, u64max-sectorSize, u64max-sectorSize+1, u64max-4095,
+		u64max-64, u64max-63, u64max-33, u64max-32, u64max-31, u64max-16, u64max-15, u64max-9, u64max-8, u64max-7, u64max-1, u64max)
+}
+
+// ---------------------------------------------------------------- level 1
+
+func (g *gen) genPD() {
+	fns := []string{"Uint64", "Hash", "Bytes", "Sector", "UnlockKey", "Signature"}
+	sizes := map[string]uint64{"Uint64": 8, "Hash": 32, "Signature": 64, "Sector": sectorSize, "Bytes": 0, "UnlockKey": 0}
+	fn := fns[g.r.Intn(len(fns))]
+	L := g.pick(0, 1, 7, 8, 9, 15, 16, 17, 31, 32, 33, 47, 48, 49, 63, 64, 65, 100, 255, 4096)
+	if fn == "Sector" || g.r.Chance(1, 12) {
+		L = g.pick(sectorSize-1, sectorSize, sectorSize+1, sectorSize+64, sectorSize+4096, sectorSize+8192, 100)
+	}
+	k := sizes[fn]
+	var n uint64
+	if fn == "Bytes" || fn == "UnlockKey" {
+		n = g.pick(0, 1, 8, 15, 16, 17, 32, 47, 48, 49, 64, L, L+1, L/2)
+		k = n
+	}
+	var off uint64
+	switch g.r.Intn(8) {
+	case 0:
+		off = 0
+	case 1:
+		off = g.near(L - k) // exact fit ± a few
+	case 2:
+		off = g.near(L)
+	case 3:
+		off = g.huge()
+	case 4:
+		off = -k + g.pick(0, 1, 2, 8, u64max, u64max-7) // offset+k wraps to 0,1,2,8 / just below 2^64
+	case 5:
+		if L > 0 {
+			off = g.r.Uint64() % (L + 1)
+		}
+	case 6:
+		off = g.pick(1<<32, 1<<63, 1<<63+8)
+	default:
+		off = g.near(0)
+	}
+	if (fn == "Bytes" || fn == "UnlockKey") && g.r.Chance(1, 3) {
+		// lengths that make offset+length wrap around
+		n = -off + g.pick(0, 1, 8, 16, 17, 48, L, L+1)
+	}
+	g.emit("pd fn=%s len=%d off=%d n=%d", fn, L, off, n)
+}
+
+func (g *gen) genCU() {
+	n := g.r.Intn(7)
+	op := vhlib.Pick(g.r, "swap", "swap", "trim", "update", "root", "append")
+	idx := func() uint64 {
+		switch g.r.Intn(5) {
+		case 0:
+			return g.near(uint64(n))
+		case 1:
+			return g.huge()
+		case 2:
+			return 0
+		default:
+			if n > 0 {
+				return uint64(g.r.Intn(n))
+			}
+			return 0
+		}
+	}
+	g.emit("cu op=%s n=%d a=%d b=%d", op, n, idx(), idx())
+}
+
+func (g *gen) genCost() {
+	fn := vhlib.Pick(g.r, "ReadOffset", "ReadSector", "DropSectors", "UpdateSector", "StoreSector", "AppendSector")
+	price := func() string {
+		if g.r.Chance(1, 6) {
+			// absurd unit prices (≥ 2^64 H per byte): the multiplication overflows for large operands
+			return vhlib.Pick(g.r, "18446744073709551616", "36893488147419103232", "1267650600228229401496703205376", "340282366920938463463374607431768211455")
+		}
+		return vhlib.Pick(g.r, "0", "1", "1000000", "549755813888", "1099511627775")
+	}
+	arg := g.pick(0, 1, 64, sectorSize, 1<<32, 1<<63, u64max-1, u64max, g.r.Uint64())
+	g.emit("cost fn=%s p1=%s p2=%s arg=%d", fn, price(), price(), arg)
+}
+
+// ---------------------------------------------------------------- level 2: program data builder
+
+type pdb struct {
+	n     uint64
+	words []string
+	blobs []string
+}
+
+func (b *pdb) word(v uint64) uint64 {
+	off := b.n
+	b.words = append(b.words, fmt.Sprintf("%d:%d", off, v))
+	b.n += 8
+	return off
+}
+
+func (b *pdb) blob(size uint64, format string, a ...any) uint64 {
+	off := b.n
+	b.blobs = append(b.blobs, fmt.Sprintf("%d:", off)+fmt.Sprintf(format, a...))
+	b.n += size
+	return off
+}
+
+func (b *pdb) args() string {
+	return fmt.Sprintf("pdlen=%d words=[%s] blobs=[%s]", b.n, strings.Join(b.words, ","), strings.Join(b.blobs, ","))
+}
+
+func b01(x bool) int { return vhlib.B01(x) }
+
+// hostileOff replaces an operand offset by one that is out of range, partially
+// out of range, or near 2^64 (relative to the program data length L and the operand size k).
+func (g *gen) hostileOff(L, k uint64) uint64 {
+	switch g.r.Intn(6) {
+	case 0:
+		return L - k + g.pick(1, 2, 7) // last bytes missing
+	case 1:
+		return L + g.pick(0, 1, 8)
+	case 2:
+		return -k + g.pick(0, 1, 7) // offset+k wraps to 0,1,7
+	case 3:
+		return g.pick(u64max, u64max-1, u64max-7)
+	case 4:
+		return g.pick(1<<32, 1<<63, 1<<63+1)
+	default:
+		return -k - g.pick(1, 2, 9) // just below the wrap: offset+k = 2^64-1…
+	}
+}
+
+type x3case struct {
+	n      int
+	fcid   int
+	budget string
+	pay    string
+	fin    string
+	b      pdb
+	prog   []string
+	mut    string
+}
+
+func (g *gen) emitX3(c x3case) {
+	line := fmt.Sprintf("x3 n=%d fcid=%d budget=%s pay=%s fin=%s %s prog=[%s]", c.n, c.fcid, c.budget, c.pay, c.fin, c.b.args(), strings.Join(c.prog, ","))
+	if c.mut != "" {
+		line += " mut=" + c.mut
+	}
+	g.emit("%s", line)
+}
+
+func (g *gen) baseCase() x3case {
+	c := x3case{n: 3, fcid: 1, budget: oneSC, pay: "acct", fin: "ok"}
+	if g.r.Chance(1, 6) {
+		c.n = g.r.Intn(3)
+	}
+	return c
+}
+
+// readPairs: (offset, length) operands for reads of one sector
+func (g *gen) readPair() (off, length uint64) {
+	switch g.r.Intn(12) {
+	case 0:
+		return 0, sectorSize
+	case 1:
+		return 0, sectorSize + g.pick(1, 64)
+	case 2:
+		return sectorSize, 0
+	case 3:
+		return sectorSize - 64, g.pick(64, 65, 128)
+	case 4:
+		return u64max - 63, 128 // aligned, offset+length wraps to 64
+	case 5:
+		return u64max, 2
+	case 6:
+		return g.pick(1, 63, 64), u64max
+	case 7:
+		return g.pick(0, 64, 128), g.pick(1, 63, 64, 65, 4096)
+	case 8:
+		return g.pick(1, 63, 65), 64
+	case 9:
+		return 0, 0
+	case 10:
+		return g.huge(), g.pick(1, 64, 128)
+	default:
+		return uint64(g.r.Intn(sectorSize/64)) * 64, uint64(1+g.r.Intn(64)) * 64
+	}
+}
+
+// genInstr builds a program with one hostile (or valid) instruction, optionally after a valid AppendSector.
+func (g *gen) genInstr() {
+	c := g.baseCase()
+	n := uint64(c.n)
+	kind := vhlib.Pick(g.r, "AS", "AR", "DS", "DS", "HS", "RO", "RO", "RO", "RS", "RS", "RS", "SW", "SW", "US", "US", "SS", "RV", "RR", "RR", "UR")
+	proof := g.r.Chance(1, 2)
+	prefixAppend := g.r.Chance(1, 8) && (kind == "SW" || kind == "DS" || kind == "US" || kind == "RO")
+	if prefixAppend {
+		g.seq++
+		o := c.b.blob(sectorSize, "sector:%d", g.seq)
+		c.prog = append(c.prog, fmt.Sprintf("AS:%d:%d", o, b01(g.r.Chance(1, 2))))
+		n++
+	}
+	hostileOperand := g.r.Chance(1, 4) // corrupt one operand offset after the layout is fixed
+	switch kind {
+	case "AS":
+		g.seq++
+		o := c.b.blob(sectorSize, "sector:%d", g.seq)
+		switch g.r.Intn(5) {
+		case 0:
+			c.b.n = sectorSize - g.pick(1, 8, 4096) // truncated program data
+		case 1:
+			o = g.pick(1, 64, u64max-sectorSize+1, u64max-sectorSize+2, u64max, 1<<63)
+		case 2:
+			c.b.n += g.pick(0, 8, 64)
+			o = c.b.n - sectorSize
+		}
+		c.prog = append(c.prog, fmt.Sprintf("AS:%d:%d", o, b01(proof)))
+	case "AR":
+		idx := g.pick(0, 1, 100)
+		o := c.b.blob(32, "root:%d", idx)
+		present := idx < n
+		if hostileOperand {
+			o, present = g.hostileOff(c.b.n, 32), false
+		}
+		c.prog = append(c.prog, fmt.Sprintf("AR:%d:%d:%d", o, b01(proof), b01(present)))
+	case "DS":
+		count := g.pick(0, 0, 1, n-1, n, n+1, n+2, 1<<63, u64max-1, u64max)
+		o := c.b.word(count)
+		if hostileOperand {
+			o = g.hostileOff(c.b.n, 8)
+		}
+		c.prog = append(c.prog, fmt.Sprintf("DS:%d:%d", o, b01(proof)))
+	case "HS":
+		o := c.b.blob(32, "root:%d", g.pick(0, 100))
+		if hostileOperand || g.r.Chance(1, 3) {
+			o = g.hostileOff(c.b.n, 32)
+		}
+		c.prog = append(c.prog, fmt.Sprintf("HS:%d", o))
+		c.fcid = g.r.Intn(2)
+	case "RO":
+		rel, length := g.readPair()
+		idx := g.pick(0, 0, n-1, n, n+1, 1<<40)
+		offset := idx*sectorSize + rel
+		if g.r.Chance(1, 3) {
+			// plain in-range reads with odd sizes
+			offset, length = idx*sectorSize+g.pick(0, 64, 4096, sectorSize-64), g.pick(0, 1, 63, 64, 128, 4096)
+		}
+		oo := c.b.word(offset)
+		lo := c.b.word(length)
+		if hostileOperand {
+			if g.r.Chance(1, 2) {
+				oo = g.hostileOff(c.b.n, 8)
+			} else {
+				lo = g.hostileOff(c.b.n, 8)
+			}
+		}
+		c.prog = append(c.prog, fmt.Sprintf("RO:%d:%d:%d", oo, lo, b01(proof)))
+	case "RS":
+		offset, length := g.readPair()
+		lo := c.b.word(length)
+		oo := c.b.word(offset)
+		idx := g.pick(0, 1, 2, 100)
+		ro := c.b.blob(32, "root:%d", idx)
+		present := idx < n
+		if hostileOperand {
+			switch g.r.Intn(3) {
+			case 0:
+				lo = g.hostileOff(c.b.n, 8)
+			case 1:
+				oo = g.hostileOff(c.b.n, 8)
+			default:
+				ro, present = g.hostileOff(c.b.n, 32), false
+			}
+		}
+		c.prog = append(c.prog, fmt.Sprintf("RS:%d:%d:%d:%d:%d", lo, oo, ro, b01(proof), b01(present)))
+		c.fcid = g.r.Intn(2)
+	case "SW":
+		ix := func() uint64 { return g.pick(0, 1, n-1, n, n+1, 1<<63, u64max) }
+		ao := c.b.word(ix())
+		bo := c.b.word(ix())
+		if hostileOperand {
+			bo = g.hostileOff(c.b.n, 8)
+		}
+		c.prog = append(c.prog, fmt.Sprintf("SW:%d:%d:%d", ao, bo, b01(proof)))
+	case "US":
+		length := g.pick(0, 1, 64, 65, 4096)
+		do := c.b.blob(length, "fill:%d:%d", length, 0xA5)
+		offset := g.pick(0, 64, sectorSize-64, sectorSize-1, sectorSize, (n-1)*sectorSize+sectorSize-64, n*sectorSize, (n+1)*sectorSize, 1<<62, u64max-63, u64max)
+		switch g.r.Intn(6) {
+		case 0:
+			length, do = g.pick(u64max, u64max-1, u64max-63), g.pick(1, 2, 64) // dataOffset+length wraps
+		case 1:
+			do = g.hostileOff(c.b.n, length)
+		case 2:
+			length = c.b.n + g.pick(1, 8)
+		}
+		c.prog = append(c.prog, fmt.Sprintf("US:%d:%d:%d:%d", offset, length, do, b01(proof)))
+	case "SS":
+		g.seq++
+		o := c.b.blob(sectorSize, "sector:%d", g.seq)
+		if g.r.Chance(1, 4) {
+			o = g.pick(1, u64max-sectorSize+1, u64max)
+		}
+		c.prog = append(c.prog, fmt.Sprintf("SS:%d:%d", o, g.pick(0, 1, 10, 1008, 1009, 1<<32, 1<<63, u64max)))
+		c.fcid = g.r.Intn(2)
+	case "RV":
+		c.prog = append(c.prog, "RV")
+		c.fcid = b01(g.r.Chance(3, 4))
+	case "RR":
+		g.seq++
+		key := g.r.Uint64()%1000000 + g.seq*1000003
+		tw := c.b.blob(32, "tweak:%d", key)
+		algOk := true
+		var pk uint64
+		if g.r.Chance(1, 6) {
+			pk, algOk = c.b.blob(48, "badpk:%d", key), false
+		} else {
+			pk = c.b.blob(48, "pk:%d", key)
+		}
+		pkLen := g.pick(48, 48, 48, 0, 8, 15, 16, 17, 47, 49, 64, -pk, -pk+8, -pk+16, -pk+48, u64max)
+		version := g.pick(1, 2, 2, 0, 3, 255)
+		if hostileOperand {
+			if g.r.Chance(1, 2) {
+				pk, algOk = g.hostileOff(c.b.n, 48), false
+			} else {
+				tw = g.hostileOff(c.b.n, 32)
+			}
+		}
+		// the key is fresh, so a well-formed read answers "not found"
+		c.prog = append(c.prog, fmt.Sprintf("RR:%d:%d:%d:%d:%d:0", pk, pkLen, tw, version, b01(algOk)))
+		c.fcid = g.r.Intn(2)
+	case "UR":
+		g.seq++
+		key := g.r.Uint64()%1000000 + g.seq*1000003
+		dlen := g.pick(0, 8, 32, 113)
+		valid := !g.r.Chance(1, 4)
+		tw := c.b.blob(32, "tweak:%d", key)
+		rv := c.b.word(1)
+		sig := c.b.n
+		c.b.n += 64
+		pk := c.b.blob(48, "pk:%d", key)
+		data := c.b.blob(dlen, "fill:%d:90", dlen)
+		c.b.blobs = append(c.b.blobs, fmt.Sprintf("%d:regsig:%d:%d:1:1:%d:%d", sig, key, key, dlen, b01(valid)))
+		pkLen, dataLen := uint64(48), dlen
+		putOk, algOk := valid, true
+		switch g.r.Intn(8) {
+		case 0:
+			pkLen = g.pick(0, 8, 16, 47, 49, -pk+48)
+		case 1:
+			dataLen, putOk = g.pick(dlen+1, u64max, -data, -data+8), false
+		case 2:
+			sig, putOk = g.hostileOff(c.b.n, 64), false
+		case 3:
+			rv, putOk = g.hostileOff(c.b.n, 8), false
+		case 4:
+			tw, putOk = g.hostileOff(c.b.n, 32), false
+		}
+		c.prog = append(c.prog, fmt.Sprintf("UR:%d:%d:%d:%d:%d:%d:%d:1:%d:%d", tw, rv, sig, pk, pkLen, data, dataLen, b01(algOk), b01(putOk)))
+		c.fcid = g.r.Intn(2)
+	}
+	if g.r.Chance(1, 10) {
+		c.fcid = 0 // contract required but not supplied (for the instructions that need one)
+	}
+	if g.r.Chance(1, 12) {
+		c.budget = vhlib.Pick(g.r, "0", "1", "2", "20", "1000000000000000000", "1000000000000000000000000000000")
+	}
+	if g.r.Chance(1, 10) {
+		c.fin = vhlib.Pick(g.r, "badsig", "sumovf", "lenmore", "lenless", "steal", "samerev", "drop")
+	}
+	if g.r.Chance(1, 14) {
+		c.pay = vhlib.Pick(g.r, "acct_badsig", "acct_expired", "acct_far", "acct_zero", "c_ok", "c_ok", "c_sumovf", "c_lenmore", "c_lenless", "c_empty", "c_badsig", "c_samerev", "c_more")
+		if strings.HasPrefix(c.pay, "c_") {
+			c.budget = oneSC
+		}
+	}
+	g.emitX3(c)
+}
+
+// genValid: requests a well-behaved renter sends (the accepted side of every guard).
+func (g *gen) genValid() {
+	c := x3case{n: 3, fcid: 1, budget: oneSC, pay: "acct", fin: "ok"}
+	switch g.r.Intn(8) {
+	case 0:
+		g.seq++
+		o := c.b.blob(sectorSize, "sector:%d", g.seq)
+		c.prog = []string{fmt.Sprintf("AS:%d:%d", o, g.r.Intn(2))}
+	case 1:
+		lo := c.b.word(uint64(1+g.r.Intn(32)) * 64)
+		oo := c.b.word(uint64(g.r.Intn(1024)) * 64)
+		ro := c.b.blob(32, "root:%d", g.r.Intn(3))
+		c.prog = []string{fmt.Sprintf("RS:%d:%d:%d:%d:1", lo, oo, ro, g.r.Intn(2))}
+		c.fcid = g.r.Intn(2)
+	case 2:
+		oo := c.b.word(uint64(g.r.Intn(3))*sectorSize + uint64(g.r.Intn(1024))*64)
+		lo := c.b.word(uint64(1+g.r.Intn(32)) * 64)
+		c.prog = []string{fmt.Sprintf("RO:%d:%d:%d", oo, lo, g.r.Intn(2))}
+	case 3:
+		ao := c.b.word(uint64(g.r.Intn(3)))
+		bo := c.b.word(uint64(g.r.Intn(3)))
+		c.prog = []string{fmt.Sprintf("SW:%d:%d:%d", ao, bo, g.r.Intn(2))}
+	case 4:
+		co := c.b.word(uint64(1 + g.r.Intn(3)))
+		c.prog = []string{fmt.Sprintf("DS:%d:%d", co, g.r.Intn(2))}
+	case 5:
+		do := c.b.blob(64, "fill:64:7")
+		c.prog = []string{fmt.Sprintf("US:%d:64:%d:0", uint64(g.r.Intn(3))*sectorSize+uint64(g.r.Intn(100))*64, do)}
+	case 6:
+		// two instructions: append, then swap the new sector to the front
+		g.seq++
+		o := c.b.blob(sectorSize, "sector:%d", g.seq)
+		ao := c.b.word(0)
+		bo := c.b.word(3)
+		c.prog = []string{fmt.Sprintf("AS:%d:0", o), fmt.Sprintf("SW:%d:%d:1", ao, bo)}
+	default:
+		ro := c.b.blob(32, "root:%d", g.pick(0, 1, 2, 100))
+		c.prog = []string{fmt.Sprintf("HS:%d", ro), "RV"}
+	}
+	g.emitX3(c)
+}
+
+// genMut: a valid request whose encoding is corrupted at a few byte positions
+// (the program data is left alone).  Layout: contract id [0,32), instruction
+// count [32,40), then per instruction a 16-byte specifier, an 8-byte argument
+// length and the arguments.
+func (g *gen) genMut() {
+	c := x3case{n: 3, fcid: 1, budget: oneSC, pay: "acct", fin: "ok"}
+	lo := c.b.word(64)
+	oo := c.b.word(0)
+	ro := c.b.blob(32, "root:0")
+	c.prog = []string{fmt.Sprintf("RS:%d:%d:%d:1:1", lo, oo, ro)}
+	var muts []string
+	for i := 0; i < 1+g.r.Intn(3); i++ {
+		var pos int
+		switch g.r.Intn(4) {
+		case 0:
+			pos = g.r.Intn(32)
+		case 1:
+			pos = vhlib.Pick(g.r, 32, 33, 39) // instruction count: low bytes or the top byte (never a multi-GiB-but-allocatable count)
+		default:
+			pos = 40 + g.r.Intn(49)
+		}
+		muts = append(muts, fmt.Sprintf("%d:%d", pos, 1+g.r.Intn(255)))
+	}
+	c.mut = "[" + strings.Join(muts, ",") + "]"
+	g.emitX3(c)
+}
+
+func (g *gen) genV2() {
+	n := int(g.pick(3, 3, 3, 1, 0))
+	un := uint64(n)
+	pay := "ok"
+	if g.r.Chance(1, 8) {
+		pay = vhlib.Pick(g.r, "under", "sumovf", "lenmore", "lenless", "empty", "samerev", "more")
+	}
+	sig := "ok"
+	if g.r.Chance(1, 12) {
+		sig = "bad"
+	}
+	switch g.r.Intn(10) {
+	case 0, 1, 2:
+		var off, num uint64
+		switch g.r.Intn(10) {
+		case 0:
+			off, num = 0, un
+		case 1:
+			off, num = g.pick(0, un, un+1), 0
+		case 2:
+			off, num = 0, un+1
+		case 3:
+			off, num = un, 1
+		case 4:
+			off, num = u64max, g.pick(1, 2, un+1)
+		case 5:
+			off, num = g.pick(1<<63, 1<<63-1), g.pick(1<<63, 1<<63+1, 1)
+		case 6:
+			off, num = g.pick(0, 1), g.pick(u64max, u64max-1, 1<<63)
+		case 7:
+			off, num = -g.pick(1, 2, 3), g.pick(1, 2, 3, 4)
+		default:
+			if n > 0 {
+				off = uint64(g.r.Intn(n))
+				num = uint64(1 + g.r.Intn(n-int(off)))
+			}
+		}
+		g.emit("v2roots n=%d off=%d num=%d pay=%s sig=%s", n, off, num, pay, sig)
+	case 3, 4, 5:
+		var secs []string
+		for i := 0; i < 1+g.r.Intn(2); i++ {
+			off, length := g.readPair()
+			if length > 1<<40 && off < 1<<40 {
+				length = g.pick(sectorSize+64, u64max-off+65) // keep the bandwidth cost payable
+			}
+			secs = append(secs, fmt.Sprintf("%d:%d:%d", g.pick(0, 1, 2, 100), off, length))
+		}
+		g.emit("v2read n=%d secs=[%s] proof=%d pay=%s sig=%s", n, strings.Join(secs, ","), g.r.Intn(2), pay, sig)
+	case 6, 7, 8:
+		ix := func() uint64 { return g.pick(0, 1, un-1, un, un+1, 1<<63, u64max) }
+		var acts []string
+		for i := 0; i < 1+g.r.Intn(3); i++ {
+			switch g.r.Intn(9) {
+			case 0:
+				acts = append(acts, "A")
+			case 1:
+				acts = append(acts, fmt.Sprintf("a:%d", g.pick(0, 64, sectorSize-1)))
+			case 2, 3:
+				acts = append(acts, fmt.Sprintf("T:%d", g.pick(0, 1, un, un+1, u64max)))
+			case 4, 5:
+				acts = append(acts, fmt.Sprintf("S:%d:%d", ix(), ix()))
+			case 6, 7:
+				acts = append(acts, fmt.Sprintf("U:%d:%d:%d", ix(), g.pick(0, 64, 65, sectorSize-64, sectorSize, sectorSize+1, u64max-63, u64max), g.pick(0, 64, 65, 128)))
+			default:
+				acts = append(acts, "X:1:1")
+			}
+		}
+		g.emit("v2write n=%d acts=[%s] proof=%d pay=%s sig=%s", n, strings.Join(acts, ","), g.r.Intn(2), pay, sig)
+	default:
+		g.emit("v2form keylen=%d txns=%d fcs=%d alg=%s", g.pick(0, 1, 5, 16, 31, 32, 32, 33, 64), g.pick(0, 1, 1, 1, 2), g.pick(0, 1, 1, 1, 2), vhlib.Pick(g.r, "ok", "ok", "ok", "bad"))
+	}
+}
+
+// generate: cfg.N wire-level cases and cfg.N*cfg.Len in-process cases.
+func generate(cfg vhlib.Config) []string {
+	g := &gen{r: vhlib.NewRand(cfg.Seed)}
+	l1 := cfg.N * cfg.Len
+	for i := 0; i < l1; i++ {
+		switch x := g.r.Intn(100); {
+		case x < 62:
+			g.genPD()
+		case x < 86:
+			g.genCU()
+		default:
+			g.genCost()
+		}
+	}
+	g.emit("regclose reads=%d writes=%d", g.r.Intn(3), g.r.Intn(2))
+	g.emit("regclose reads=0 writes=0")
+	for i := 0; i < cfg.N; i++ {
+		switch x := g.r.Intn(100); {
+		case x < 55:
+			g.genInstr()
+		case x < 70:
+			g.genValid()
+		case x < 75:
+			g.genMut()
+		default:
+			g.genV2()
+		}
+	}
+	if cfg.Extra["regflush"] == "1" || cfg.Seed%8 == 3 {
+		// the registry recorder's 10 s flush after one successful read through the MDM
+		g.emit("regflush waitms=11000")
+	}
+	return g.out
+}
